@@ -264,6 +264,8 @@ func C18(r *core.Report) {
 	c18Classification(r)
 	c18JobIndependence(r)
 	c18AllJobsStarted(r)
+	c18HitConfirmedByIndex(r)
+	r.Floor("C18.R8", 1)
 	r.Floor("C18.R7", 2)
 	r.Floor("C18.R6", 1)
 	r.Floor("C18.R2", 2)
@@ -549,5 +551,83 @@ func c18AllJobsStarted(r *core.Report) {
 	_ = p
 	if n == 0 {
 		r.Undecided(rule, "main.JobGroup#runners", "", "no JobGroup runner found")
+	}
+}
+
+// c18HitConfirmedByIndex (C18.R8): the sig-exists filter only says "maybe" (it compares 64-bit hashes inside a two-byte
+// bucket); a per-epoch job may report a hit only after that epoch's signature-to-CID index returned the signature. Every
+// success return of a job is dominated by the nil outcome of a FindCidFromSignature call made for the searched signature.
+func c18HitConfirmedByIndex(r *core.Report) { hitConfirmedByIndex(r, "C18.R8") }
+
+func hitConfirmedByIndex(r *core.Report, rule string) {
+	p := r.Prog
+	f := r.Anchor(rule, "main.(*MultiEpoch).findEpochNumberFromSignature")
+	if f == nil {
+		return
+	}
+	info := f.Pkg.TypesInfo
+	sig := f.ParamByName("sig")
+	n := 0
+	for _, lit := range f.Lits {
+		if lit.Type.Results == nil || len(lit.Type.Results.List) != 2 {
+			continue
+		}
+		if t := info.TypeOf(lit.Type.Results.List[1].Type); t == nil || !core.IsErrorType(t) {
+			continue
+		}
+		g := p.Graph(lit)
+		// the confirming calls and the error variables they define
+		confirm := map[types.Object]*core.GNode{}
+		for _, node := range g.Nodes {
+			if node.Kind != core.KStmt {
+				continue
+			}
+			as, ok := node.Ast.(*ast.AssignStmt)
+			if !ok || len(as.Rhs) != 1 {
+				continue
+			}
+			c, ok := core.Unparen(as.Rhs[0]).(*ast.CallExpr)
+			if !ok || !strings.HasSuffix(core.CalleeName(info, c), "(*Epoch).FindCidFromSignature") {
+				continue
+			}
+			if sig != nil && (len(c.Args) < 2 || core.ObjOf(info, c.Args[1]) != types.Object(sig)) {
+				continue
+			}
+			if eo := core.ObjOf(info, as.Lhs[len(as.Lhs)-1]); eo != nil {
+				confirm[eo] = node
+			}
+		}
+		for i, rn := range g.Returns() {
+			nilErr, dec := isNilErrReturn(lit, rn)
+			if dec && !nilErr {
+				continue
+			}
+			// `if ctx.Err() != nil { return 0, ctx.Err() }`: the returned expression is the one just tested non-nil
+			if res := returnResults(rn); len(res) == 2 && !dec {
+				isErr := false
+				for _, fc := range g.FactsAt(rn) {
+					if x, isNil, isCmp := core.NilCompare(info, fc.Expr); isCmp && isNil != fc.Truth && core.ExprStr(x) == core.ExprStr(res[1]) {
+						isErr = true
+					}
+				}
+				if isErr {
+					continue
+				}
+			}
+			n++
+			ok := false
+			for _, fc := range g.FactsAt(rn) {
+				if x, isNil, isCmp := core.NilCompare(info, fc.Expr); isCmp && isNil == fc.Truth {
+					if cn := confirm[core.ObjOf(info, x)]; cn != nil && g.Dominates(cn, rn) && g.FactFresh(fc, rn) {
+						ok = true
+					}
+				}
+			}
+			r.Check(ok, rule, fmt.Sprintf("%s#hit@%d-confirmed-by-signature-index", lit.Key, i), pos(r, rn.Ast), "the job reports a hit only after the epoch's signature index returned the signature",
+				"a per-epoch job reports a hit without the nil outcome of FindCidFromSignature for the searched signature: a false positive of the sig-exists filter in another epoch wins the search and the transaction is answered as not found")
+		}
+	}
+	if n == 0 {
+		r.Undecided(rule, f.Key+"#job-success-returns", posP(r, f.Pos()), "no success return of a per-epoch job found")
 	}
 }
